@@ -60,7 +60,8 @@ type pendingTx struct {
 }
 
 type knownReport struct {
-	rep oracletypes.MicroReport
+	meta uint64 // the round (query meta id) the report was stored under
+	rep  oracletypes.MicroReport
 }
 
 type Hist struct {
@@ -464,7 +465,7 @@ func (h *Hist) afterBlock(br *BlockResult, pend []pendingTx) {
 						if string(k.K1()) == string(qid) {
 							r, err := h.C.App.OracleKeeper.Reports.Get(ctx, k)
 							if err == nil && r.BlockNumber == uint64(br.Height) {
-								h.Reports = append(h.Reports, knownReport{rep: r})
+								h.Reports = append(h.Reports, knownReport{rep: r, meta: k.K3()})
 							}
 						}
 					}
